@@ -519,7 +519,7 @@ func drivePoint(t *Tracer, r Rng, n int) {
 				k = r.Intn(51)
 			}
 			if i%900 == 31 {
-				k = int(r.In(300, 1000)) // a long list
+				k = int(r.Pick(255, 256, 257, 1000, 1023, 1024, 1025, r.In(300, 1000))) // a long list
 			}
 			ps := make([]Pt, 0, k)
 			for len(ps) < k {
